@@ -207,6 +207,16 @@ def validRows (nB : Nat) (shape : List Nat) (E : Evals α) : List Nat :=
 def getMeansBoot (nB m : Nat) (shape : List Nat) (E : Evals α) : List (Option α) :=
   (List.range m).map (fun j => strictMean ((validRows nB shape E).map (fun r => cell shape E r j)))
 
+/-- *Specification* of `Result.get_means` (round 7): per model, the NaN-aware average over the
+    samples of that model's own per-sample values (trailing axes collapsed NaN-aware).  A model
+    without any value has mean NaN; the other models are not affected by it.  For results whose
+    failed samples are whole rows this is what the coded bootstrap path computes
+    (`means_boot_eq_spec_of_whole_rows`); the coded path decides which samples to keep from the
+    FIRST model only, so a first model without values wipes out every mean — the defect
+    `nan-first-model-means` (the driver reports this specification for every `cv_method`). -/
+def getMeansSpec (nB m : Nat) (shape : List Nat) (E : Evals α) : List (Option α) :=
+  (List.range m).map (fun j => nanMean ((List.range nB).map (fun r => cell shape E r j)))
+
 /-- `Result.get_means` for `cv_method` `fixed` / `crossvalidation` (3-D evaluations):
     `np.nanmean(np.mean(evaluations, axis=0), axis=-1)` -/
 def getMeansFixed (nB m n : Nat) (E : Evals α) : List (Option α) :=
